@@ -1399,7 +1399,7 @@ def gen_cases(tier, rng):
     return cases
 
 
-LEVEL_TEXT = ("Machine-checked proof (Coq, 22 theorems, closed under the global context) over an executable model of CRNCanonicalizer / "
+LEVEL_TEXT = ("Machine-checked proof (Coq, 23 theorems, closed under the global context) over an executable model of CRNCanonicalizer / "
               "CRNAutomorphism and the two network views, for ALL views: the canonical graph is the view relabelled by a bijection onto "
               "k+1..k+n (clause 1); a view renamed by a map injective on its nodes and presented in any other node/arc order gets the same "
               "minimal label and the identical canonical graph (clause 2: signature/label/initial partition equivariant, generic IR leaf "
